@@ -301,6 +301,7 @@ def check_run_behave(chk, ix, mutate=None):
     stubs["PluginStub.make_runner"] = lambda it, st, a, k, n: [(st, "val", st.alloc(HObj(
         "RunnerObj", {"undefined_steps": Top("undefined_steps", True)}, label="runner")))]
     it = Interp(ix, stubs=stubs, name="run_behave")
+    it.allow_guess = True       # the module-level DEBUG switch (an environment setting) is explored both ways
     st = State()
     cfg = st.alloc(HObj("ConfigStub", {
         "version": False, "tags_help": False, "lang": "en", "lang_list": False, "lang_help": None,
